@@ -427,7 +427,11 @@ func replayKv(b Behaviour, opt *Options) *Failure {
 		r := &kvRun{be: be, redis: isRedis, tick: tick, start: time.Now(), bound: map[int]string{}, seen: map[string]bool{}, expOf: map[int]time.Time{}}
 		var f *Failure
 		for i := 1; i < len(b); i++ {
-			if f = r.step(i, b[i]); f != nil {
+			// (through callPanics: the replay watchdog then knows how long this one call has been in flight)
+			if p, pv := callPanics(func() { f = r.step(i, b[i]) }); p {
+				f = &Failure{Step: i, Sig: "kv: " + b[i].Str("op") + " panicked", Got: firstLine(fmt.Sprint(pv)), Want: b[i]}
+			}
+			if f != nil {
 				break
 			}
 		}
